@@ -1,9 +1,10 @@
 use std::collections::{HashMap, HashSet};
 
-use combine::{Parser, choice, many1, optional};
+use combine::{Parser, attempt, choice, many1, optional};
 use redis_protocol::resp3;
 use redis_protocol::resp3::types::BytesFrame;
 use sierradb::bucket::PartitionId;
+use sierradb::id::uuid_to_partition_hash;
 use sierradb_cluster::subscription::{FromSequences, Subscribe, SubscriptionMatcher};
 use tokio::io::{self, AsyncWriteExt};
 use tokio::sync::{mpsc, watch};
@@ -13,7 +14,7 @@ use uuid::Uuid;
 use crate::error::AsRedisError;
 use crate::parser::{
     FrameStream, all_selector, keyword, number_u64, number_u64_min, partition_id,
-    partition_id_sequence, partition_ids,
+    partition_id_sequence, partition_ids, partition_key,
 };
 use crate::request::{HandleRequest, number, simple_str};
 use crate::server::Conn;
@@ -27,6 +28,9 @@ use crate::server::Conn;
 ///
 /// # Single partition
 /// EPSUB <partition_id> [FROM <sequence>] [WINDOW <size>]
+///
+/// # Single partition, selected by partition key
+/// EPSUB <partition_key> [FROM <sequence>] [WINDOW <size>]
 ///
 /// # Multiple partitions
 /// EPSUB <p1>,<p2>,<p3> [FROM LATEST | FROM <sequence> | FROM MAP <p1>=<s1> <p2>=<s2>... [DEFAULT <seq>]] [WINDOW <size>]
@@ -46,6 +50,10 @@ use crate::server::Conn;
 #[derive(Debug)]
 pub struct EPSub {
     pub matcher: SubscriptionMatcher,
+    /// Set when the partition was selected by key: the partition id depends
+    /// on the partition count and is filled into the matcher when the request
+    /// is handled.
+    pub partition_key: Option<Uuid>,
     pub window_size: Option<u64>,
 }
 
@@ -57,9 +65,21 @@ impl EPSub {
             optional(window()),
         )
             .map(|(selector, from_sequences, window_size)| {
+                let partition_key = match selector {
+                    Selector::PartitionKey(key) => Some(key),
+                    _ => None,
+                };
                 let matcher = match selector {
                     Selector::All => SubscriptionMatcher::AllPartitions {
                         from_sequences: from_sequences.unwrap_or(FromSequences::Latest),
+                    },
+                    Selector::PartitionKey(_) => SubscriptionMatcher::Partition {
+                        partition_id: 0,
+                        from_sequence: match from_sequences {
+                            Some(FromSequences::AllPartitions(sequence)) => Some(sequence),
+                            Some(FromSequences::Partitions { fallback, .. }) => fallback,
+                            Some(FromSequences::Latest) | None => None,
+                        },
                     },
                     Selector::Partition(partition_id) => match from_sequences {
                         Some(FromSequences::Latest) => SubscriptionMatcher::Partition {
@@ -91,6 +111,7 @@ impl EPSub {
                 };
                 EPSub {
                     matcher,
+                    partition_key,
                     window_size,
                 }
             })
@@ -99,6 +120,7 @@ impl EPSub {
 
 enum Selector {
     All,
+    PartitionKey(Uuid),
     Partition(PartitionId),
     Partitions(HashSet<PartitionId>),
 }
@@ -107,6 +129,7 @@ impl Selector {
     fn parser<'a>() -> impl Parser<FrameStream<'a>, Output = Self> + 'a {
         choice!(
             all_selector().map(|_| Selector::All),
+            attempt(partition_key()).map(Selector::PartitionKey),
             partition_id().map(Selector::Partition),
             partition_ids().map(Selector::Partitions)
         )
@@ -152,12 +175,19 @@ impl HandleRequest for EPSub {
             }
         };
 
+        let mut matcher = self.matcher;
+        if let (Some(key), SubscriptionMatcher::Partition { partition_id, .. }) =
+            (self.partition_key, &mut matcher)
+        {
+            *partition_id = uuid_to_partition_hash(key) % conn.num_partitions;
+        }
+
         let subscription_id = Uuid::new_v4();
         let (last_ack_tx, last_ack_rx) = watch::channel(None);
         conn.cluster_ref
             .ask(Subscribe {
                 subscription_id,
-                matcher: self.matcher,
+                matcher,
                 last_ack_rx,
                 update_tx: sender,
                 window_size: self.window_size.unwrap_or(1_000),
